@@ -260,21 +260,25 @@ def play_hist(h, doms, rngs):
     for e in h:
         a, i, x = e["a"], e["i"], e["x"]
         s = scales[i - 1]
-        if a == "D":
-            s.domain(list(doms[x]))
-        elif a == "R":
-            s.range(list(rngs[x]))
-        elif a == "K":
-            s.clamp(x == "1")
-        elif a == "N":
-            s.nice(int(x))
-        elif a == "Y":
-            scales.append(s.copy())
-        elif a == "F":
-            s.domain(scales[int(x) - 1].domain())
-        elif a == "T":
-            s.ticks(int(x))
-        rec["ev"].append({"a": a, "i": i, "x": x, "obs": [observe(t) for t in scales]})
+        err = ""
+        try:
+            if a == "D":
+                s.domain(list(doms[x]))
+            elif a == "R":
+                s.range(list(rngs[x]))
+            elif a == "K":
+                s.clamp(x == "1")
+            elif a == "N":
+                s.nice(int(x))
+            elif a == "Y":
+                scales.append(s.copy())
+            elif a == "F":
+                s.domain(scales[int(x) - 1].domain())
+            elif a == "T":
+                s.ticks(int(x))
+        except Exception as ex:          # a setter / nice / copy that raises on a legal argument: data for the verdict
+            err = type(ex).__name__
+        rec["ev"].append({"a": a, "i": i, "x": x, "err": err, "obs": [observe(t) for t in scales]})
     return rec
 
 
